@@ -26,6 +26,8 @@ use crate::thread_pool::ThreadPool;
 
 pub struct Server {}
 impl Server {
+    pub const _ERROR_REQUEST_TARGET_IS_NOT_IN_ORIGIN_FORM: &'static str = "request target is not in origin form (it does not start with a slash)";
+
     pub fn process_request(mut stream: impl Read + Write + Unpin, peer_addr: SocketAddr) -> Vec<u8> {
         let request_allocation_size = get_request_allocation_size();
         let mut buffer = vec![0; request_allocation_size as usize];
@@ -70,6 +72,20 @@ impl Server {
 
 
         let request: Request = boxed_request.unwrap();
+        if !request.request_uri.starts_with(SYMBOL.slash) {
+            let message = Server::_ERROR_REQUEST_TARGET_IS_NOT_IN_ORIGIN_FORM.to_string();
+            eprintln!("unable to serve request: {}", &message);
+
+            let raw_response = Server::bad_request_response(message);
+            let boxed_stream = stream.write_all(raw_response.borrow());
+            if boxed_stream.is_ok() {
+                let boxed_flush = stream.flush();
+                if boxed_flush.is_err() {
+                    eprintln!("unable to flush TCP stream {}", boxed_flush.err().unwrap());
+                }
+            };
+            return raw_response;
+        }
         let (response, request) = App::handle_request(request);
 
 
@@ -174,6 +190,25 @@ impl Server {
         let request: Request = boxed_request.unwrap();
         #[cfg(rws_verif)]
         crate::verif::yield_point("process.after_parse");
+
+        if !request.request_uri.starts_with(SYMBOL.slash) {
+            let message = Server::_ERROR_REQUEST_TARGET_IS_NOT_IN_ORIGIN_FORM.to_string();
+
+            let raw_response = Server::bad_request_response(message.clone());
+            let boxed_stream = stream.write_all(raw_response.borrow());
+            if boxed_stream.is_ok() {
+                let boxed_flush = stream.flush();
+                if boxed_flush.is_err() {
+                    let flush_message = boxed_flush.err().unwrap().to_string();
+                    return Err(flush_message);
+                }
+            } else {
+                let write_message = boxed_stream.err().unwrap().to_string();
+                let combined_error = [message, SYMBOL.comma.to_string(), write_message].join(SYMBOL.empty_string);
+                return Err(combined_error);
+            };
+            return Err(message);
+        }
 
         let app_processing = app.execute(&request, &connection);
         if app_processing.is_err() {
